@@ -462,6 +462,27 @@ func (a c15SiteAtom) addr() string {
 	return s
 }
 
+// directive shapes for site blocks with SEVERAL tls directives (joined with '&' in the tls field, in Casketfile order):
+// own certificate (`manual` = tls cert key, `load` = tls { load dir }), options only (`block` must_staple, `proto` protocols,
+// `ciph` ciphers, `snip` = the same options spliced in by `import` of a snippet), and the rest
+var c15MultiTLS = []string{"off", "email", "self", "manual", "load", "block", "proto", "ciph", "snip", "block+nr", "block+od", "manual+nr", "email+od"}
+
+func c15RandTLS(r *hx.Rng) string {
+	if !r.Chance(1, 4) {
+		return hx.Pick(r, c15TLSVariants)
+	}
+	n := 2 + r.Intn(2)
+	vs := make([]string, n)
+	for i := range vs {
+		if r.Chance(1, 3) {
+			vs[i] = hx.Pick(r, c15TLSVariants)
+		} else {
+			vs[i] = hx.Pick(r, c15MultiTLS)
+		}
+	}
+	return strings.Join(vs, "&")
+}
+
 var c15TLSVariants = []string{"none", "off", "email", "self", "manual", "block", "block+nr", "email+nr", "self+nr", "manual+nr", "block+od", "email+od", "manual+od", "self+od", "block+nr+od"}
 
 // hosts by class for the site-set stream (all of them valid Casketfile tokens inside the address domain)
@@ -501,9 +522,9 @@ func c15SitesGenFor(g *c15G) {
 		}
 	}
 	// 2 sites of one host: (scheme x port x tls)^2 ; one host is enough for the pair interactions, a second host checks independence
-	pairTLS := []string{"none", "off", "email", "self", "manual", "block+nr", "email+od"}
+	pairTLS := []string{"none", "off", "email", "self", "manual", "block+nr", "email+od", "manual&proto", "snip&load"}
 	if g.Thorough() {
-		pairTLS = c15TLSVariants
+		pairTLS = append(append([]string{}, c15TLSVariants...), "manual&proto", "snip&load", "load&block+nr", "self&email")
 	}
 	var atoms []string
 	for _, s := range schemes {
@@ -551,6 +572,42 @@ func c15SitesGenFor(g *c15G) {
 		g.Case(c15Q("example.com:"+g.H) + "," + c15Q("example.com:"+g.S) + "," + c15Q("example.com:9443") + "||" + v)
 		g.Case(c15Q("http://a.example.com") + "," + c15Q("b.example.com") + "||" + v + ";" + c15Q("a.example.com") + "||none")
 	}
+	// several tls directives in one site block: every ordered pair of directive shapes on every kind of address (the flags an
+	// earlier directive set must survive the later ones; `tls off` ends the reading), triples over the shapes that matter
+	multiAddrs := []string{"example.com", "example.com:" + g.S, "example.com:8443", "https://example.com", "http://example.com", "example.com:" + g.H,
+		"*.example.com", "localhost", "10.0.0.1", ":8443", "foo.test:8443"}
+	for _, a := range multiAddrs {
+		for _, v1 := range c15MultiTLS {
+			for _, v2 := range c15MultiTLS {
+				if g.moved() && !g.Thorough() && g.Rng.Intn(3) != 0 {
+					continue
+				}
+				g.Case(c15Q(a) + "||" + v1 + "&" + v2)
+			}
+		}
+	}
+	triMulti := []string{"manual", "load", "proto", "snip", "off", "self", "email", "block+nr"}
+	for _, a := range []string{"example.com", "example.com:8443"} {
+		for _, v1 := range triMulti {
+			for _, v2 := range triMulti {
+				for _, v3 := range triMulti {
+					if g.moved() && g.Rng.Intn(4) != 0 {
+						continue
+					}
+					g.Case(c15Q(a) + "||" + v1 + "&" + v2 + "&" + v3)
+				}
+			}
+		}
+	}
+	// …under a bind, in a shared block, and next to a second site of the host
+	for _, v := range []string{"manual&proto", "load&snip", "proto&manual", "snip&load", "manual&block+nr", "manual&block+od", "self&proto", "email&off", "off&manual"} {
+		for _, b := range []string{"127.0.0.1", "203.0.113.7"} {
+			g.Case(c15Q("example.com") + "|" + c15Q(b) + "|" + v)
+		}
+		g.Case(c15Q("example.com") + "," + c15Q("www.example.com:8443") + "||" + v)
+		g.Case(c15Q("http://example.com") + "," + c15Q("https://example.com") + "||" + v)
+		g.Case(c15Q("example.com") + "||" + v + ";" + c15Q("www.example.com") + "||snip")
+	}
 	// seeded random: 1..5 sites over a small host pool, everything random
 	N := g.scaled(8000)
 	if g.Thorough() {
@@ -581,7 +638,7 @@ func c15SitesGenFor(g *c15G) {
 			if r.Chance(1, 6) {
 				b = hx.Pick(r, c15SiteBinds)
 			}
-			blocks = append(blocks, strings.Join(keys, ",")+"|"+c15Q(b)+"|"+hx.Pick(r, c15TLSVariants))
+			blocks = append(blocks, strings.Join(keys, ",")+"|"+c15Q(b)+"|"+c15RandTLS(r))
 		}
 		g.Case(strings.Join(blocks, ";"))
 	}
